@@ -277,6 +277,8 @@ func runNFSCase(r *ev.Run, idx int) {
 			} else {
 				h.stepLockT(step, c, pShared)
 			}
+		case roll < 98:
+			h.stepLifecycle(step, c, pShared)
 		default:
 			h.stepRebootDuringIO(step, c)
 		}
